@@ -5,6 +5,7 @@ import Pyunicorn.Lemmas.NetCore
 import Pyunicorn.Lemmas.NetCoreFull
 import Pyunicorn.Lemmas.NetBetwPaths
 import Pyunicorn.Lemmas.NetBetwAsm
+import Pyunicorn.Lemmas.NetRW
 import Pyunicorn.Generated.ArithC03
 /-!
 # C03 — Network measures equal their published definitions
@@ -1011,5 +1012,255 @@ example : NetBetw.sweepDiff 4 c4 w4 [true, true, true, true] 0 1
     = NetBetw.contribDef 4 c4 w4 (dist 4 c4) [true, true, true, true] 0 1 := by decide +kernel
 example : NetBetw.nsiBetweenness 4 c4 w4 [true, true, true, true] [0, 3] ≠ [0, 0, 0, 0] := by decide +kernel
 example : avgPathLengthU 5 (dist 5 p4iso) = some (5 / 3) ∧ diameter 5 (dist 5 p4iso) = 3 := by decide +kernel
+
+/-! ## Round 4
+
+### link-weighted motif clustering `local_*motif_clustering(key)` ([Fagiolo2007])
+
+`m` is the matrix `link_attribute(key)**(1/3)`.  The numerators are sums, over the ordered pairs
+`(j,k)`, of the product of the three entries of `m` along the motif at `i`; when `m` vanishes
+off the links these are sums over exactly the closed motifs the unweighted theorems
+(`tCycle_eq_count` …) count; the denominators are the **unweighted** numbers of open motifs
+(`TCycle_eq_count`, `TIn_eq_count`, `TOut_eq_count`), literally the source expressions. -/
+
+theorem cycleW_numerator (n : Nat) (m : RMat) (i : Nat) :
+    tCycleW n m i = sumToQ n fun j => sumToQ n fun k => m i j * m j k * m k i :=
+  mmulQ3_diag n m m m i
+
+theorem midW_numerator (n : Nat) (m : RMat) (i : Nat) :
+    tMidW n m i = sumToQ n fun j => sumToQ n fun k => m i j * m k j * m k i :=
+  mmulQ3_diag n m (trQ m) m i
+
+theorem inW_numerator (n : Nat) (m : RMat) (i : Nat) :
+    tInW n m i = sumToQ n fun j => sumToQ n fun k => m j i * m j k * m k i :=
+  mmulQ3_diag n (trQ m) m m i
+
+theorem outW_numerator (n : Nat) (m : RMat) (i : Nat) :
+    tOutW n m i = sumToQ n fun j => sumToQ n fun k => m i j * m j k * m i k :=
+  mmulQ3_diag n m m (trQ m) i
+
+/-- the weighted cycle numerator sums `(w_ij w_jk w_ki)^(1/3)` over exactly the closed cycle motifs at `i` -/
+theorem cycleW_sums_motifs (n : Nat) (a : Adj) (m : RMat) (hm : OnLinks a m) (i : Nat) :
+    tCycleW n m i = sumToQ n fun j => sumToQ n fun k =>
+      if a i j && a j k && a k i then m i j * m j k * m k i else 0 := by
+  rw [cycleW_numerator]
+  apply sumToQ_congrLt; intro j _; apply sumToQ_congrLt; intro k _
+  exact onLinks_mul3 a m hm _ _ _ _ _ _
+
+theorem midW_sums_motifs (n : Nat) (a : Adj) (m : RMat) (hm : OnLinks a m) (i : Nat) :
+    tMidW n m i = sumToQ n fun j => sumToQ n fun k =>
+      if a i j && a k j && a k i then m i j * m k j * m k i else 0 := by
+  rw [midW_numerator]
+  apply sumToQ_congrLt; intro j _; apply sumToQ_congrLt; intro k _
+  exact onLinks_mul3 a m hm _ _ _ _ _ _
+
+theorem inW_sums_motifs (n : Nat) (a : Adj) (m : RMat) (hm : OnLinks a m) (i : Nat) :
+    tInW n m i = sumToQ n fun j => sumToQ n fun k =>
+      if a j i && a j k && a k i then m j i * m j k * m k i else 0 := by
+  rw [inW_numerator]
+  apply sumToQ_congrLt; intro j _; apply sumToQ_congrLt; intro k _
+  exact onLinks_mul3 a m hm _ _ _ _ _ _
+
+theorem outW_sums_motifs (n : Nat) (a : Adj) (m : RMat) (hm : OnLinks a m) (i : Nat) :
+    tOutW n m i = sumToQ n fun j => sumToQ n fun k =>
+      if a i j && a j k && a i k then m i j * m j k * m i k else 0 := by
+  rw [outW_numerator]
+  apply sumToQ_congrLt; intro j _; apply sumToQ_congrLt; intro k _
+  exact onLinks_mul3 a m hm _ _ _ _ _ _
+
+/-- **`local_cyclemotif_clustering(key)` = Fagiolo's definition**: the sum of the cubic roots of the
+weight products over the closed cycle motifs at `i`, divided by the number of ordered pairs
+`j → i → k`, `j ≠ k`, of the *unweighted* graph (0 where there is none). -/
+theorem cycleCW_eq_def (n : Nat) (a : Adj) (m : RMat) (hm : OnLinks a m) (i : Nat) :
+    cycleCW n a m i =
+      (let open_ := countPairs n fun j k => a j i && a i k && j != k
+       if open_ = 0 then 0 else
+         (sumToQ n fun j => sumToQ n fun k =>
+            if a i j && a j k && a k i then m i j * m j k * m k i else 0) / (open_ : Rat)) := by
+  simp only [cycleCW, ratio0Q, TCycle_eq_count, cycleW_sums_motifs n a m hm]
+  by_cases h : countPairs n (fun j k => a j i && a i k && j != k) = 0
+  · simp [h]
+  · simp [h]
+
+theorem inCW_eq_def (n : Nat) (a : Adj) (m : RMat) (hm : OnLinks a m) (i : Nat) :
+    inCW n a m i =
+      (let open_ := countPairs n fun j k => a j i && a k i && j != k
+       if open_ = 0 then 0 else
+         (sumToQ n fun j => sumToQ n fun k =>
+            if a j i && a j k && a k i then m j i * m j k * m k i else 0) / (open_ : Rat)) := by
+  simp only [inCW, ratio0Q, TIn_eq_count, inW_sums_motifs n a m hm]
+  by_cases h : countPairs n (fun j k => a j i && a k i && j != k) = 0
+  · simp [h]
+  · simp [h]
+
+theorem outCW_eq_def (n : Nat) (a : Adj) (m : RMat) (hm : OnLinks a m) (i : Nat) :
+    outCW n a m i =
+      (let open_ := countPairs n fun j k => a i j && a i k && j != k
+       if open_ = 0 then 0 else
+         (sumToQ n fun j => sumToQ n fun k =>
+            if a i j && a j k && a i k then m i j * m j k * m i k else 0) / (open_ : Rat)) := by
+  simp only [outCW, ratio0Q, TOut_eq_count, outW_sums_motifs n a m hm]
+  by_cases h : countPairs n (fun j k => a i j && a i k && j != k) = 0
+  · simp [h]
+  · simp [h]
+
+theorem midCW_eq_def (n : Nat) (a : Adj) (m : RMat) (hm : OnLinks a m) (i : Nat) :
+    midCW n a m i =
+      (let open_ := countPairs n fun j k => a j i && a i k && j != k
+       if open_ = 0 then 0 else
+         (sumToQ n fun j => sumToQ n fun k =>
+            if a i j && a k j && a k i then m i j * m k j * m k i else 0) / (open_ : Rat)) := by
+  simp only [midCW, ratio0Q, TCycle_eq_count, midW_sums_motifs n a m hm]
+  by_cases h : countPairs n (fun j k => a j i && a i k && j != k) = 0
+  · simp [h]
+  · simp [h]
+
+/-- `key=None` is the special case `m = A`: the weighted model returns the unweighted coefficients -/
+theorem motifCW_unweighted (n : Nat) (a : Adj) (i : Nat) :
+    cycleCW n a (toQ a) i = cycleC n a i ∧ midCW n a (toQ a) i = midC n a i ∧
+    inCW n a (toQ a) i = inC n a i ∧ outCW n a (toQ a) i = outC n a i := by
+  have hT : trQ (fun x y => ((toN a x y : Nat) : Rat)) = fun x y => ((tr (toN a) x y : Nat) : Rat) := rfl
+  refine ⟨?_, ?_, ?_, ?_⟩
+  · simp only [cycleCW, cycleC, ratio0Q, ratio0, tCycleW, tCycle, toQ_eq_cast]
+    rw [show mmulQ n (fun x y => ((toN a x y : Nat) : Rat)) (fun x y => ((toN a x y : Nat) : Rat))
+          = fun x y => ((mmul n (toN a) (toN a) x y : Nat) : Rat) from
+        funext fun x => funext fun y => mmulQ_cast n _ _ x y, mmulQ_cast]
+  · simp only [midCW, midC, ratio0Q, ratio0, tMidW, tMid, toQ_eq_cast, hT]
+    rw [show mmulQ n (fun x y => ((toN a x y : Nat) : Rat)) (fun x y => ((tr (toN a) x y : Nat) : Rat))
+          = fun x y => ((mmul n (toN a) (tr (toN a)) x y : Nat) : Rat) from
+        funext fun x => funext fun y => mmulQ_cast n _ _ x y, mmulQ_cast]
+  · simp only [inCW, inC, ratio0Q, ratio0, tInW, tIn, toQ_eq_cast, hT]
+    rw [show mmulQ n (fun x y => ((tr (toN a) x y : Nat) : Rat)) (fun x y => ((toN a x y : Nat) : Rat))
+          = fun x y => ((mmul n (tr (toN a)) (toN a) x y : Nat) : Rat) from
+        funext fun x => funext fun y => mmulQ_cast n _ _ x y, mmulQ_cast]
+  · simp only [outCW, outC, ratio0Q, ratio0, tOutW, tOut, toQ_eq_cast, hT]
+    rw [show mmulQ n (fun x y => ((toN a x y : Nat) : Rat)) (fun x y => ((toN a x y : Nat) : Rat))
+          = fun x y => ((mmul n (toN a) (toN a) x y : Nat) : Rat) from
+        funext fun x => funext fun y => mmulQ_cast n _ _ x y, mmulQ_cast]
+
+open Pyunicorn.Generated in
+/-- the four denominators of the model are literally the expressions `T = …` of the four methods in
+the current `network.py` (a `key` threaded into `bildegree(...)` or any other edit breaks this) -/
+theorem motif_denominators_tie (n : Nat) (a : Adj) (i : Nat) :
+    TCycle n a i = ArithC03.cycleMotifT (indeg n a i) (outdeg n a i) (bildeg n a i) ∧
+    TCycle n a i = ArithC03.midMotifT (indeg n a i) (outdeg n a i) (bildeg n a i) ∧
+    TIn n a i = ArithC03.inMotifT (indeg n a i) ∧
+    TOut n a i = ArithC03.outMotifT (outdeg n a i) := ⟨rfl, rfl, rfl, rfl⟩
+
+/-! ### Newman's random-walk betweenness: kernel, normalisation by the component size, scatter -/
+
+/-- **kernel + wrapper = definition**, for every matrix `V` of potentials, every component size
+`N ≥ 2`, every adjacency `b` of the component and every node `i < N`: the four nested loops of
+`_mpi_newman_betweenness`, followed by `+= 2 (N-1)` and `/= (N-1)` with `N` the size of the
+*component*, give `Σ_{t<s<N} I_i^{st} / ((N-1)/2)` — the current through `i` summed over all pairs
+of terminals (unit current at the terminals themselves), normalised by the number of pairs per node. -/
+theorem newman_eq_def (N : Nat) (b : Adj) (V : RMat) (i : Nat) (hN : 2 ≤ N) (hi : i < N) :
+    newmanNormalise N (newmanRow N (b i) V i) = newmanDef N b V i := by
+  have hcur : ∀ s t, current N b V i s t =
+      (if i = s ∨ i = t then (1 : Rat) else 0) +
+      (1 / 2) * (if i ≠ s ∧ i ≠ t then
+        sumToQ N fun j => if b i j then absQ (V i s - V j s - V i t + V j t) else 0 else 0) := by
+    intro s t
+    unfold current
+    by_cases h : i = s ∨ i = t
+    · have : ¬ (i ≠ s ∧ i ≠ t) := by
+        rcases h with h | h <;> simp [h]
+      simp [h, this]
+    · have h' : i ≠ s ∧ i ≠ t := by
+        constructor <;> intro e <;> exact h (by simp [e])
+      rw [if_neg h, if_neg h, if_pos h']
+      have : (fun j => if b i j = true then absQ (V i s - V i t - (V j s - V j t)) else 0)
+          = fun j => if b i j = true then absQ (V i s - V j s - V i t + V j t) else 0 := by
+        funext j
+        rw [show V i s - V i t - (V j s - V j t) = V i s - V j s - V i t + V j t by ring]
+      rw [this]; ring
+  have hsum : (sumToQ N fun s => sumToQ s fun t => current N b V i s t)
+      = ((N : Rat) - 1) + (1 / 2) * newmanRow N (b i) V i := by
+    rw [newmanRow_eq_pairs]
+    have e1 : (fun s => sumToQ s fun t => current N b V i s t) = fun s =>
+        (sumToQ s fun t => if i = s ∨ i = t then (1 : Rat) else 0) +
+        (1 / 2) * sumToQ s fun t => (if i ≠ s ∧ i ≠ t then
+          sumToQ N fun j => if b i j then absQ (V i s - V j s - V i t + V j t) else 0 else 0) := by
+      funext s
+      rw [← sumToQ_mul_left', ← sumToQ_add']
+      exact sumToQ_congrLt s _ _ fun t _ => hcur s t
+    rw [e1, sumToQ_add', sumToQ_mul_left', pairs_through, if_pos hi]
+  have hne : ((N : Rat) - 1) ≠ 0 := by
+    have : (2 : Rat) ≤ (N : Rat) := by exact_mod_cast hN
+    intro h; linarith
+  unfold newmanDef newmanNormalise
+  rw [hsum]
+  field_simp
+  ring
+
+open Pyunicorn.Generated in
+/-- the model's normalisation is the composition of the two source statements
+`component_betweenness += 2 * (N - 1)` and `component_betweenness /= (N - 1.0)` of the current
+`network.py`, with the same `N` (the component size) in both -/
+theorem newmanNormalise_tie (N : Nat) (x : Rat) :
+    newmanNormalise N x = ArithC03.newmanDivide (ArithC03.newmanAddEnds x N) N := by
+  simp only [newmanNormalise, ArithC03.newmanDivide, ArithC03.newmanAddEnds]
+  push_cast
+  ring
+
+/-- the kernel's `i_rel`-th output is the row value of node `i_rel + start_i` (how a slice of rows
+handed to a worker is mapped back to absolute node indices) -/
+theorem newmanKernel_get (thisA : Nat → Nat → Bool) (V : RMat) (N start stop irel : Nat)
+    (h : irel < stop - start) :
+    (newmanKernel thisA V N start stop)[irel]? = some (newmanRow N (thisA irel) V (irel + start)) := by
+  simp [newmanKernel, h]
+
+/-- scatter: a node outside the component keeps its value … -/
+theorem scatter_other (res : List Rat) (nodes : List Nat) (vals : List Rat) (v : Nat)
+    (hv : v ∉ nodes) : (scatter res nodes vals)[v]? = res[v]? := by
+  unfold scatter
+  induction nodes generalizing res vals with
+  | nil => simp
+  | cons x xs ih =>
+    cases vals with
+    | nil => simp
+    | cons y ys =>
+      simp only [List.zip_cons_cons, List.foldl_cons]
+      have hx : x ≠ v := fun e => hv (by simp [e])
+      rw [ih _ _ (fun h => hv (List.mem_cons_of_mem _ h))]
+      simp [hx]
+
+/-- … and the `j`-th node of a duplicate-free component receives the `j`-th value
+(`newman_betweenness[node] = component_betweenness[j]`) -/
+theorem scatter_member (res : List Rat) (nodes : List Nat) (vals : List Rat) (j : Nat)
+    (hd : nodes.Nodup) (hl : vals.length = nodes.length) (hj : j < nodes.length)
+    (hb : ∀ v ∈ nodes, v < res.length) :
+    (scatter res nodes vals)[nodes.getD j 0]? = vals[j]? := by
+  unfold scatter
+  induction nodes generalizing res vals j with
+  | nil => simp at hj
+  | cons x xs ih =>
+    cases vals with
+    | nil => simp at hl
+    | cons y ys =>
+      simp only [List.zip_cons_cons, List.foldl_cons]
+      have hd' := List.nodup_cons.mp hd
+      cases j with
+      | zero =>
+        have := scatter_other (res.set x y) xs ys x hd'.1
+        unfold scatter at this
+        simp only [List.getD_cons_zero]
+        rw [this]
+        simp [hb x (by simp)]
+      | succ k =>
+        simp only [List.getD_cons_succ, List.getElem?_cons_succ]
+        exact ih (res.set x y) ys k hd'.2 (by simpa using hl) (by simpa using hj)
+          (fun v hv => by simpa using hb v (List.mem_cons_of_mem _ hv))
+
+/-! non-vacuity: path 0–1–2 plus the link 3–4 (two components); unit cube-root weights on `d3` -/
+def p3k2 : Adj := fun i j => (i, j) ∈ [(0, 1), (1, 0), (1, 2), (2, 1), (3, 4), (4, 3)]
+example : components 5 p3k2 = [[0, 1, 2], [3, 4]] := by decide +kernel
+example : newmanBetweenness 5 p3k2 = some [2, 3, 2, 2, 2] := by decide +kernel
+example : newmanNormalise 3 (newmanRow 3 (subAdj p3k2 [0, 1, 2] 1)
+    (matFn [[1, 1], [1, 2]]) 1) = newmanDef 3 (subAdj p3k2 [0, 1, 2]) (matFn [[1, 1], [1, 2]]) 1 := by
+  decide +kernel
+example : OnLinks d3 (fun i j => if d3 i j then 2 else 0) := by
+  intro x y h; simp [h]
+example : cycleCW 3 d3 (fun i j => if d3 i j then 2 else 0) 0 = 8 := by decide +kernel
 
 end Pyunicorn.Net
